@@ -709,6 +709,441 @@ func c07CallNames(fd *ast.FuncDecl) []string {
 	return out
 }
 
+// ---------- qualified strings of every family, and annotation write sites ----------
+
+// a "<dns-domain>/<name>" string: annotation keys, label keys, apiVersions, secret types ... of ANY family
+var c07QualifiedRe = regexp.MustCompile(`^[a-z0-9]([a-z0-9-]*[a-z0-9])?(\.[a-z0-9]([a-z0-9-]*[a-z0-9])?)+/[A-Za-z0-9][A-Za-z0-9._-]*$`)
+
+// import-path-like strings are not keys
+func c07LooksLikeImportPath(v string) bool {
+	for _, p := range []string{"sigs.k8s.io/", "k8s.io/", "github.com/", "gopkg.in/", "golang.org/", "go.starlark.net/", "google.golang.org/", "gcr.io/", "docker.io/", "registry.k8s.io/", "quay.io/", "example.com/", "example.io/"} {
+		if strings.HasPrefix(v, p) {
+			return true
+		}
+	}
+	return false
+}
+
+type c07Write struct{ file, fn, kind, text string }
+
+// c07ScanAll walks every non-test, non-hook Go file under api/ and kyaml/ once and returns
+//   - every qualified string constant / literal (file, name, value),
+//   - every place where an annotation key is written (see the patterns below),
+//   - every string concatenation that could not be folded although one operand is a known annotation domain / prefix.
+func (w *c07world) c07ScanAll() (quals []c07AnnLike, writes []c07Write, dyn []string, err error) {
+	type fnInfo struct {
+		pkg  *c07pkg
+		file *ast.File
+		decl *ast.FuncDecl
+	}
+	var funcs []fnInfo
+	seenQ := map[string]bool{}
+	addQ := func(file, name, value string) {
+		if !c07QualifiedRe.MatchString(value) || c07LooksLikeImportPath(value) {
+			return
+		}
+		rel, _ := filepath.Rel(w.repo, file)
+		k := rel + "\x00" + name + "\x00" + value
+		if !seenQ[k] {
+			seenQ[k] = true
+			quals = append(quals, c07AnnLike{rel, name, value})
+		}
+	}
+	isDomain := func(v string) bool {
+		return strings.HasSuffix(v, "config.kubernetes.io") || strings.HasSuffix(v, "config.kubernetes.io/") ||
+			strings.HasSuffix(v, "config.k8s.io") || strings.HasSuffix(v, "config.k8s.io/")
+	}
+	for _, root := range []string{"api", "kyaml"} {
+		var dirs []string
+		werr := filepath.Walk(filepath.Join(w.repo, root), func(path string, info os.FileInfo, e error) error {
+			if e != nil {
+				return e
+			}
+			if info.IsDir() {
+				b := info.Name()
+				if b == "testdata" || b == "vendor" || strings.HasPrefix(b, ".") || b == "e2e" {
+					return filepath.SkipDir
+				}
+				dirs = append(dirs, path)
+			}
+			return nil
+		})
+		if werr != nil {
+			return nil, nil, nil, werr
+		}
+		for _, d := range dirs {
+			p, lerr := w.load(d)
+			if lerr != nil {
+				return nil, nil, nil, fmt.Errorf("scan %s: %v", d, lerr)
+			}
+			for _, f := range p.files {
+				fname := p.fset.Position(f.Pos()).Filename
+				if strings.HasPrefix(filepath.Base(fname), "zz_verif_") {
+					continue
+				}
+				named := map[ast.Expr]bool{}
+				for _, dcl := range f.Decls {
+					switch x := dcl.(type) {
+					case *ast.GenDecl:
+						if x.Tok != token.CONST && x.Tok != token.VAR {
+							continue
+						}
+						for _, sp := range x.Specs {
+							vs := sp.(*ast.ValueSpec)
+							for i, n := range vs.Names {
+								if i >= len(vs.Values) {
+									continue
+								}
+								if v, ok := w.eval(p, f, vs.Values[i], 0); ok {
+									addQ(fname, n.Name, v)
+									named[vs.Values[i]] = true
+								}
+							}
+						}
+					case *ast.FuncDecl:
+						if x.Body != nil {
+							funcs = append(funcs, fnInfo{p, f, x})
+						}
+					}
+				}
+				ast.Inspect(f, func(n ast.Node) bool {
+					e, ok := n.(ast.Expr)
+					if !ok || named[e] {
+						return true
+					}
+					switch x := e.(type) {
+					case *ast.BasicLit:
+						if x.Kind == token.STRING {
+							if v, ok := w.eval(p, f, x, 0); ok {
+								addQ(fname, "", v)
+							}
+						}
+					case *ast.BinaryExpr:
+						if x.Op != token.ADD {
+							return true
+						}
+						if v, ok := w.eval(p, f, x, 0); ok {
+							addQ(fname, "", v)
+							return true
+						}
+						// not foldable: is one side a known annotation domain / prefix?
+						for _, side := range []ast.Expr{x.X, x.Y} {
+							if v, ok := w.eval(p, f, side, 0); ok && isDomain(v) {
+								rel, _ := filepath.Rel(w.repo, fname)
+								dyn = append(dyn, fmt.Sprintf("%s:%d: %s + %s", rel, p.fset.Position(x.Pos()).Line, c07ExprText(x.X), c07ExprText(x.Y)))
+							}
+						}
+					}
+					return true
+				})
+			}
+		}
+	}
+	// ---- write sites. A key expression is const (folds), param (a parameter of the enclosing function) or dynamic.
+	paramIndex := func(fd *ast.FuncDecl, name string) int {
+		idx := 0
+		for _, fl := range fd.Type.Params.List {
+			if len(fl.Names) == 0 {
+				idx++
+				continue
+			}
+			for _, n := range fl.Names {
+				if n.Name == name {
+					return idx
+				}
+				idx++
+			}
+		}
+		return -1
+	}
+	annoName := regexp.MustCompile(`(?i)annotations?$`)
+	// helpers: function name -> parameter positions that end up as an annotation key
+	helpers := map[string]map[int]bool{"SetAnnotation": {0: true}, "AnnotateAll": {0: true}}
+	type keySite struct {
+		fi   fnInfo
+		expr ast.Expr
+	}
+	collect := func(fi fnInfo) (keys []keySite, maps []keySite) {
+		ast.Inspect(fi.decl.Body, func(n ast.Node) bool {
+			switch x := n.(type) {
+			case *ast.CallExpr:
+				name := ""
+				switch fn := x.Fun.(type) {
+				case *ast.SelectorExpr:
+					name = fn.Sel.Name
+				case *ast.Ident:
+					name = fn.Name
+				}
+				if hp, ok := helpers[name]; ok {
+					for i := range hp {
+						if i < len(x.Args) {
+							keys = append(keys, keySite{fi, x.Args[i]})
+						}
+					}
+				}
+				if name == "SetAnnotations" && len(x.Args) == 1 {
+					maps = append(maps, keySite{fi, x.Args[0]})
+				}
+			case *ast.AssignStmt:
+				for _, l := range x.Lhs {
+					if ie, ok := l.(*ast.IndexExpr); ok && annoName.MatchString(c07ExprText(ie.X)) {
+						keys = append(keys, keySite{fi, ie.Index})
+					}
+				}
+			case *ast.KeyValueExpr:
+				if id, ok := x.Key.(*ast.Ident); ok && (id.Name == "Annotations" || id.Name == "SetAnnotations") {
+					if cl, ok := x.Value.(*ast.CompositeLit); ok {
+						for _, el := range cl.Elts {
+							if kv, ok := el.(*ast.KeyValueExpr); ok {
+								keys = append(keys, keySite{fi, kv.Key})
+							}
+						}
+					} else {
+						maps = append(maps, keySite{fi, x.Value})
+					}
+				}
+			}
+			return true
+		})
+		return keys, maps
+	}
+	// fixpoint over helpers
+	for changed := true; changed; {
+		changed = false
+		for _, fi := range funcs {
+			keys, _ := collect(fi)
+			for _, ks := range keys {
+				if id, ok := ks.expr.(*ast.Ident); ok {
+					if pi := paramIndex(fi.decl, id.Name); pi >= 0 {
+						hn := fi.decl.Name.Name
+						if helpers[hn] == nil {
+							helpers[hn] = map[int]bool{}
+						}
+						if !helpers[hn][pi] {
+							helpers[hn][pi] = true
+							changed = true
+						}
+					}
+				}
+			}
+		}
+	}
+	seenW := map[string]bool{}
+	addW := func(fi fnInfo, kind, text string) {
+		rel, _ := filepath.Rel(w.repo, fi.pkg.fset.Position(fi.file.Pos()).Filename)
+		k := rel + "\x00" + fi.decl.Name.Name + "\x00" + kind + "\x00" + text
+		if !seenW[k] {
+			seenW[k] = true
+			writes = append(writes, c07Write{rel, fi.decl.Name.Name, kind, text})
+		}
+	}
+	for _, fi := range funcs {
+		keys, maps := collect(fi)
+		// variables of this function that hold the resource's own annotation map (x := r.GetAnnotations())
+		own := map[string]bool{}
+		ast.Inspect(fi.decl.Body, func(n ast.Node) bool {
+			if as, ok := n.(*ast.AssignStmt); ok && len(as.Lhs) == 1 && len(as.Rhs) == 1 {
+				if c, ok := as.Rhs[0].(*ast.CallExpr); ok && strings.HasSuffix(c07ExprText(c.Fun), "GetAnnotations") {
+					if id, ok := as.Lhs[0].(*ast.Ident); ok {
+						own[id.Name] = true
+					}
+				}
+			}
+			return true
+		})
+		for _, ks := range keys {
+			if v, ok := w.eval(fi.pkg, fi.file, ks.expr, 0); ok {
+				addW(fi, "const", v)
+				continue
+			}
+			if id, ok := ks.expr.(*ast.Ident); ok && paramIndex(fi.decl, id.Name) >= 0 {
+				continue // forwarded: the callers are the sites
+			}
+			addW(fi, "dynamic", c07ExprText(ks.expr))
+		}
+		for _, ms := range maps {
+			if id, ok := ms.expr.(*ast.Ident); ok && own[id.Name] {
+				continue // the resource's own map written back: its new keys are the index assignments above
+			}
+			addW(fi, "map", c07ExprText(ms.expr))
+		}
+	}
+	less := func(a, b c07Write) bool {
+		if a.file != b.file {
+			return a.file < b.file
+		}
+		if a.fn != b.fn {
+			return a.fn < b.fn
+		}
+		if a.kind != b.kind {
+			return a.kind < b.kind
+		}
+		return a.text < b.text
+	}
+	sort.Slice(writes, func(i, j int) bool { return less(writes[i], writes[j]) })
+	sort.Slice(quals, func(i, j int) bool {
+		a, b := quals[i], quals[j]
+		if a.value != b.value {
+			return a.value < b.value
+		}
+		if a.file != b.file {
+			return a.file < b.file
+		}
+		return a.name < b.name
+	})
+	sort.Strings(dyn)
+	return quals, writes, dyn, nil
+}
+
+// ---------- plugin protocol keys: is every writer matched by a remover on every path? ----------
+
+// c07TopLevel returns the expressions evaluated unconditionally by a statement list: expression statements, right-hand
+// sides, returned values, and the init statement / condition of an `if` (not its branches), in order.
+func c07TopLevel(stmts []ast.Stmt) []ast.Node {
+	var out []ast.Node
+	var stmt func(s ast.Stmt)
+	stmt = func(s ast.Stmt) {
+		switch x := s.(type) {
+		case *ast.ExprStmt:
+			out = append(out, x.X)
+		case *ast.AssignStmt:
+			for _, e := range x.Rhs {
+				out = append(out, e)
+			}
+		case *ast.ReturnStmt:
+			for _, e := range x.Results {
+				out = append(out, e)
+			}
+		case *ast.IfStmt:
+			if x.Init != nil {
+				stmt(x.Init)
+			}
+			out = append(out, x.Cond)
+		case *ast.DeclStmt:
+			out = append(out, x)
+		}
+	}
+	for _, s := range stmts {
+		stmt(s)
+	}
+	return out
+}
+
+func c07HasCall(nodes []ast.Node, pred func(c *ast.CallExpr) bool) bool {
+	found := false
+	for _, n := range nodes {
+		ast.Inspect(n, func(m ast.Node) bool {
+			if c, ok := m.(*ast.CallExpr); ok && pred(c) {
+				found = true
+			}
+			return true
+		})
+	}
+	return found
+}
+
+// c07LoopStatus looks at every `for ... range` loop of function fn (and at the function body itself when inLoop is
+// false): "unconditional" when pred holds for a call evaluated unconditionally by the loop body, "conditional" when
+// such a call only occurs deeper (inside a branch), "missing" otherwise.
+func c07LoopStatus(p *c07pkg, fn string, inLoop bool, pred func(c *ast.CallExpr) bool) string {
+	fd, _ := c07FindFunc(p, "", fn)
+	if fd == nil || fd.Body == nil {
+		return "missing"
+	}
+	status := "missing"
+	consider := func(body []ast.Stmt, whole ast.Node) {
+		if c07HasCall(c07TopLevel(body), pred) {
+			status = "unconditional"
+		} else if status != "unconditional" && c07HasCall([]ast.Node{whole}, pred) {
+			status = "conditional"
+		}
+	}
+	if !inLoop {
+		consider(fd.Body.List, fd.Body)
+		return status
+	}
+	ast.Inspect(fd.Body, func(n ast.Node) bool {
+		if rg, ok := n.(*ast.RangeStmt); ok {
+			consider(rg.Body.List, rg.Body)
+		}
+		return true
+	})
+	return status
+}
+
+func c07Worst(a ...string) string {
+	rank := map[string]int{"unconditional": 0, "conditional": 1, "missing": 2}
+	w := "unconditional"
+	for _, x := range a {
+		if rank[x] > rank[w] {
+			w = x
+		}
+	}
+	return w
+}
+
+// protocolRemovals: the exec / KRM-function plugin protocol (api/internal/plugins/utils). idAnnotation is written on
+// the copy handed to a plugin transformer and must be removed from EVERY resource read back (UpdateResMapValues ->
+// removeIDAnnotation); HashAnnotation / BehaviorAnnotation are written by plugins and consumed by UpdateResourceOptions.
+func (w *c07world) protocolRemovals() ([][3]string, error) {
+	dir := filepath.Join(w.repo, "api/internal/plugins/utils")
+	p, err := w.load(dir)
+	if err != nil {
+		return nil, err
+	}
+	val := func(name string) (string, error) {
+		e, ok := p.exprs[name]
+		if !ok {
+			return "", fmt.Errorf("constant %s not found in %s", name, dir)
+		}
+		v, ok := w.eval(p, p.fileOf[name], e, 0)
+		if !ok {
+			return "", fmt.Errorf("constant %s of %s is not a string", name, dir)
+		}
+		return v, nil
+	}
+	isCallNamed := func(name string) func(c *ast.CallExpr) bool {
+		return func(c *ast.CallExpr) bool {
+			switch f := c.Fun.(type) {
+			case *ast.Ident:
+				return f.Name == name
+			case *ast.SelectorExpr:
+				return f.Sel.Name == name
+			}
+			return false
+		}
+	}
+	deletes := func(constName string) func(c *ast.CallExpr) bool {
+		return func(c *ast.CallExpr) bool {
+			if c07ExprText(c.Fun) != "delete" || len(c.Args) != 2 {
+				return false
+			}
+			return c07ExprText(c.Args[1]) == constName
+		}
+	}
+	var out [][3]string
+	idv, err := val("idAnnotation")
+	if err != nil {
+		return nil, err
+	}
+	st := c07Worst(
+		c07LoopStatus(p, "UpdateResMapValues", true, isCallNamed("removeIDAnnotation")),
+		c07LoopStatus(p, "removeIDAnnotation", false, deletes("idAnnotation")),
+		c07LoopStatus(p, "removeIDAnnotation", false, isCallNamed("SetAnnotations")))
+	out = append(out, [3]string{idv, "UpdateResMapValues: removeIDAnnotation on every resource read back", st})
+	for _, cn := range []string{"HashAnnotation", "BehaviorAnnotation"} {
+		v, err := val(cn)
+		if err != nil {
+			return nil, err
+		}
+		st := c07Worst(
+			c07LoopStatus(p, "UpdateResourceOptions", true, deletes(cn)),
+			c07LoopStatus(p, "UpdateResourceOptions", true, isCallNamed("SetAnnotations")))
+		out = append(out, [3]string{v, "UpdateResourceOptions: deleted from every generated resource", st})
+	}
+	return out, nil
+}
+
 // ---------- printing ----------
 
 func c07CoqStrList(l []string) string {
@@ -835,6 +1270,49 @@ func init() {
 				sep = ""
 			}
 			fmt.Fprintf(&b, "  (%s, %s, %s)%s\n", coqStr(a.file), coqStr(a.name), coqStr(a.value), sep)
+		}
+		b.WriteString("].\n\n")
+
+		// every qualified string of any family, the annotation write sites, unfoldable key concatenations
+		quals, writes, dynsites, err := w.c07ScanAll()
+		if err != nil {
+			return "", err
+		}
+		b.WriteString("(* every \"<dns-domain>/<name>\" string constant / literal of non-test Go files under api/ and kyaml/, whatever its family:\n   (file, constant name or \"\", value) *)\n")
+		b.WriteString("Definition gen_qualified_strings : list (string * string * string) := [\n")
+		for i, a := range quals {
+			sep := ";"
+			if i == len(quals)-1 {
+				sep = ""
+			}
+			fmt.Fprintf(&b, "  (%s, %s, %s)%s\n", coqStr(a.file), coqStr(a.name), coqStr(a.value), sep)
+		}
+		b.WriteString("].\n\n")
+		b.WriteString("(* places where an annotation key is written: yaml.SetAnnotation(k, _), X[k] = _ on a map named *annotations,\n   map literals given as Annotations / SetAnnotations, and calls of functions that forward a parameter to one of these\n   (found by a fixpoint over the call graph by name). (file, function, kind, text): kind const = the folded key;\n   dynamic = a key computed at run time (its expression); map = a whole map, other than the resource's own\n   annotation map, handed to SetAnnotations / an Annotations field (its expression) *)\n")
+		b.WriteString("Definition gen_annotation_writes : list (string * string * string * string) := [\n")
+		for i, x := range writes {
+			sep := ";"
+			if i == len(writes)-1 {
+				sep = ""
+			}
+			fmt.Fprintf(&b, "  (%s, %s, %s, %s)%s\n", coqStr(x.file), coqStr(x.fn), coqStr(x.kind), coqStr(x.text), sep)
+		}
+		b.WriteString("].\n\n")
+		b.WriteString("(* string concatenations that do not fold to a constant although one operand is an annotation domain / prefix *)\n")
+		fmt.Fprintf(&b, "Definition gen_dynamic_key_concats : list string := %s.\n\n", c07CoqStrList(dynsites))
+
+		prs, err := w.protocolRemovals()
+		if err != nil {
+			return "", err
+		}
+		b.WriteString("(* exec / KRM-function plugin protocol keys (api/internal/plugins/utils): (key, where it is removed, status);\n   unconditional = the removal is evaluated unconditionally for every resource of the loop, conditional = only\n   inside a branch, missing = not found *)\n")
+		b.WriteString("Definition gen_plugin_protocol_removals : list (string * string * string) := [\n")
+		for i, x := range prs {
+			sep := ";"
+			if i == len(prs)-1 {
+				sep = ""
+			}
+			fmt.Fprintf(&b, "  (%s, %s, %s)%s\n", coqStr(x[0]), coqStr(x[1]), coqStr(x[2]), sep)
 		}
 		b.WriteString("].\n\n")
 
